@@ -281,21 +281,26 @@ class AppCfgMgr:
 
         for container in configured:
             appname = appcfg.app_name(container)
-            if os.path.exists(os.path.join(self.tm_env.running_dir, appname)):
+            # NOTE: several containers (generations) of one instance can
+            #       exist at the same time: the links tell which is which.
+            if self._linked_container(self.tm_env.running_dir,
+                                      appname) == container:
                 # App already running.. check if in cache.
                 # No need to check if needs cleanup as that is handled
-                if appname not in cached or cached[appname] != container:
+                if cached.get(appname) != container:
                     self._terminate(appname)
                 else:
                     _LOGGER.info('Ignoring %s as it is running', appname)
+                    cached.pop(appname, None)
 
-                cached.pop(appname, None)
-
-            elif os.path.exists(os.path.join(self.tm_env.cleanup_dir,
-                                             appname)):
+            elif container in (
+                    self._linked_container(self.tm_env.cleanup_dir, appname),
+                    self._linked_container(self.tm_env.cleanup_dir,
+                                           container)):
                 # Already in the process of being cleaned up
-                _LOGGER.info('Ignoring %s as it is in cleanup', appname)
-                cached.pop(appname, None)
+                _LOGGER.info('Ignoring %s as it is in cleanup', container)
+                if cached.get(appname) == container:
+                    cached.pop(appname, None)
 
             else:
                 needs_cleanup = True
@@ -316,7 +321,7 @@ class AppCfgMgr:
 
                 if needs_cleanup:
                     fs.symlink_safe(
-                        os.path.join(self.tm_env.cleanup_dir, appname),
+                        self._cleanup_link(appname, container),
                         os.path.join(self.tm_env.apps_dir, container)
                     )
                     _LOGGER.debug('Removed %r', appname)
@@ -450,6 +455,18 @@ class AppCfgMgr:
         return container == self._linked_container(
             self.tm_env.running_dir, os.path.basename(event_file)
         )
+
+    def _cleanup_link(self, instance_name, container):
+        """Cleanup link to use for a container: named after the instance,
+        unless another container of the same instance is still waiting for
+        its cleanup under that name.
+        """
+        holder = self._linked_container(self.tm_env.cleanup_dir,
+                                        instance_name)
+        if holder is None or holder == container:
+            return os.path.join(self.tm_env.cleanup_dir, instance_name)
+
+        return os.path.join(self.tm_env.cleanup_dir, container)
 
     @staticmethod
     def _linked_container(link_dir, link_name):
